@@ -49,6 +49,19 @@ func (ex *Exec) specBoolWith(st *State, e *SExpr, extra map[string]*Val) *Term {
 	return ex.specBool(st, e, extra)
 }
 
+// tryApplyLemma: like applyLemma, but a hint that mentions a variable not in scope at this point is skipped.
+func (ex *Exec) tryApplyLemma(st *State, use *SExpr, extra map[string]*Val) {
+	defer func() {
+		if r := recover(); r != nil {
+			if s, ok := r.(string); ok && strings.Contains(s, "unknown identifier") {
+				return
+			}
+			panic(r)
+		}
+	}()
+	ex.applyLemma(st, use, extra)
+}
+
 // applyLemma assumes an instance of a lemma: use L(args)
 func (ex *Exec) applyLemma(st *State, use *SExpr, extra map[string]*Val) {
 	env := ex.specEnv(st, extra)
@@ -56,6 +69,20 @@ func (ex *Exec) applyLemma(st *State, use *SExpr, extra map[string]*Val) {
 }
 
 func (w *World) lemmaInstance(use *SExpr, env *SpecEnv) *Term {
+	if use.Kind == "quant" && use.Name == "forall" {
+		// use forall j int :: L(.. j ..): a universally quantified lemma instance
+		extra := map[string]*Val{}
+		var bvs []*Term
+		for _, v := range use.Vars {
+			s, gt := w.resolveSpecType(env.pkg, v.Type)
+			bvCounter++
+			c := cnst(fmt.Sprintf("%s$%d", v.Name, bvCounter), s)
+			bvs = append(bvs, c)
+			extra[v.Name] = tv(c, gt)
+		}
+		body := w.lemmaInstance(use.Args[0], env.with(extra))
+		return &Term{Op: "forall", BVars: bvs, S: SBool, Args: []*Term{body}}
+	}
 	if use.Kind != "call" || use.Args[0].Kind != "ident" {
 		panic("use: expected lemma application, got " + use.String())
 	}
@@ -177,6 +204,9 @@ func (w *World) verifyFunc(fi *FuncInfo, fc *FuncContract) (ex *Exec, err error)
 			}
 			if isIntType(v.Type()) {
 				ex.assume(st, ex.intRange(c, v.Type()))
+			}
+			if s.IsSlice {
+				ex.assume(st, tAnd(mk("<=", SBool, intLit(0), tField(c, "len")), mk("<=", SBool, intLit(0), tField(c, "off"))))
 			}
 			if ex.allocates && s.Eq(SRef) && !isIntType(v.Type()) {
 				ex.assume(st, tOr(tEq(c, intLit(0)), ex.isAlloc(st, c)))
@@ -342,6 +372,11 @@ func (ex *Exec) execReturn(st *State, s *ast.ReturnStmt) {
 	for _, u := range ex.fc.RetUses {
 		ex.applyLemma(st, u, extra)
 	}
+	for i, h := range ex.fc.RetHaves {
+		g := ex.specBool(st, h.E, extra)
+		ex.oblige(st, "have", fmt.Sprintf("have.ret%d.%s", rn, clauseName(h, i)), g, where+": have "+h.Src)
+		ex.assume(st, g)
+	}
 	for i, c := range ex.fc.Ensures {
 		g := ex.specBool(st, c.E, extra)
 		o := ex.oblige(st, "post", fmt.Sprintf("post.ret%d.%s", rn, clauseName(c, i)), g, where+": ensures "+c.Src)
@@ -379,18 +414,29 @@ func (ex *Exec) execReturn(st *State, s *ast.ReturnStmt) {
 		}
 	}
 	if ip := ex.fc.Iter; ip != nil {
-		env := ex.specEnv(st, extra)
 		seen := st.ghost["seen"].T
 		stopped := st.ghost["stopped"].T
 		seen0 := ex.entry.ghost["seen"].T
-		bvCounter++
-		i := cnst(fmt.Sprintf("%s$%d", ip.IdxVar, bvCounter), SInt)
-		ienv := env.with(map[string]*Val{ip.IdxVar: tv(i, types.Typ[types.Int])})
+		// the arbitrary index: a fresh constant ($j in `proto use` hints)
+		pst := st.clone()
+		j := ex.fresh("sk_j", SInt)
+		jv := tv(j, types.Typ[types.Int])
+		hx := map[string]*Val{}
+		for k, v := range extra {
+			hx[k] = v
+		}
+		hx["$j"] = jv
+		for k, u := range ex.fc.ProtoUses {
+			if tg := ex.fc.ProtoTargets[k]; tg == "" || tg == fmt.Sprintf("ret%d", rn) {
+				ex.tryApplyLemma(pst, u, hx)
+			}
+		}
+		env := ex.specEnv(pst, extra)
+		ienv := env.with(map[string]*Val{ip.IdxVar: jv})
 		dm := tAnd(ex.w.trSpec(ip.Dom, ienv).T, ex.w.trSpec(ip.Match, ienv).T)
-		all := &Term{Op: "forall", BVars: []*Term{i}, S: SBool, Args: []*Term{tImp(dm, tSelect(seen, i))}}
-		ex.oblige(st, "proto", fmt.Sprintf("proto.ret%d.complete", rn), tOr(stopped, all), where+": unless stopped, every matching index has been reported")
-		frame := &Term{Op: "forall", BVars: []*Term{i}, S: SBool, Args: []*Term{tAnd(tImp(tSelect(seen, i), tOr(tSelect(seen0, i), dm)), tImp(tSelect(seen0, i), tSelect(seen, i)))}}
-		ex.oblige(st, "proto", fmt.Sprintf("proto.ret%d.frame", rn), frame, where+": only matching indices of the domain were reported")
+		ex.oblige(pst, "proto", fmt.Sprintf("proto.ret%d.complete", rn), tOr(stopped, tImp(dm, tSelect(seen, j))), where+": unless stopped, every matching index has been reported")
+		frame := tAnd(tImp(tSelect(seen, j), tOr(tSelect(seen0, j), dm)), tImp(tSelect(seen0, j), tSelect(seen, j)))
+		ex.oblige(pst, "proto", fmt.Sprintf("proto.ret%d.frame", rn), frame, where+": only matching indices of the domain were reported")
 	}
 }
 
@@ -581,6 +627,39 @@ func (ex *Exec) evalBuiltin(st *State, name string, e *ast.CallExpr) *Val {
 			ex.assume(st, tEq(tSelect(narr, mk("+", SInt, ln, intLit(int64(i)))), coerceTo(v, arr.S.Elem)))
 		}
 		return tv(tMkDT(base.T.S, narr, intLit(0), mk("+", SInt, ln, intLit(int64(len(e.Args)-1)))), base.GoT)
+	case "make":
+		t := ex.info.TypeOf(e.Args[0])
+		sl, ok := t.Underlying().(*types.Slice)
+		if !ok {
+			panic(unsupported("make of non-slice at " + where))
+		}
+		n := ex.eval(st, e.Args[1])
+		ex.safeN++
+		ex.oblige(st, "safe", fmt.Sprintf("safe.make.%d", ex.safeN), mk("<=", SBool, intLit(0), n.T), where+": make with non-negative length")
+		es := ex.w.sortOf(sl.Elem())
+		ss := ex.w.Reg.slice(es)
+		r := tv(tMkDT(ss, ex.constArray(ex.zeroOfSort(es), es), intLit(0), n.T), t)
+		r.FreshSlice = true
+		return r
+	case "copy":
+		dst := ex.eval(st, e.Args[0])
+		src := ex.eval(st, e.Args[1])
+		if !dst.T.S.IsSlice || !src.T.S.IsSlice {
+			panic(unsupported("copy of non-slices at " + where))
+		}
+		// new backing array: copied prefix from src, everything else as before (destination assumed unaliased: A-GO, checked by govframe)
+		darr, doff, dlen := tField(dst.T, "arr"), tField(dst.T, "off"), tField(dst.T, "len")
+		sarr, soff, slen := tField(src.T, "arr"), tField(src.T, "off"), tField(src.T, "len")
+		n := ex.define("ncopy", tIte(mk("<=", SBool, dlen, slen), dlen, slen))
+		narr := ex.fresh("copied", darr.S)
+		bvCounter++
+		k := cnst(fmt.Sprintf("k$%d", bvCounter), SInt)
+		inRange := tAnd(mk("<=", SBool, doff, k), mk("<", SBool, k, mk("+", SInt, doff, n)))
+		ex.assume(st, &Term{Op: "forall", BVars: []*Term{k}, S: SBool, Args: []*Term{tEq(tSelect(narr, k), tIte(inRange, tSelect(sarr, mk("+", SInt, soff, mk("-", SInt, k, doff))), tSelect(darr, k)))}})
+		nv := tv(tMkDT(dst.T.S, narr, doff, dlen), dst.GoT)
+		nv.FreshSlice = dst.FreshSlice
+		ex.assignTo(st, e.Args[0], nv)
+		return tv(n, types.Typ[types.Int])
 	case "new":
 		t := ex.info.TypeOf(e.Args[0])
 		if isStructNamed(t) {
@@ -648,6 +727,54 @@ func (ex *Exec) evalExternal(st *State, obj *types.Func, sel *ast.SelectorExpr, 
 	case "math.Float64bits":
 		x := ex.eval(st, e.Args[0])
 		return tv(mk("f64bits", SInt, x.T), types.Typ[types.Uint64])
+	}
+	if obj.Pkg().Path() == "encoding/binary" && strings.HasPrefix(obj.Name(), "PutUint") {
+		// binary.LittleEndian.PutUintNN(slice, v): little-endian bytes of v stored into the slice's array (A-BINARY).
+		var n int64
+		switch obj.Name() {
+		case "PutUint16":
+			n = 2
+		case "PutUint32":
+			n = 4
+		default:
+			panic(unsupported("binary." + obj.Name() + " at " + where))
+		}
+		data := ex.eval(st, e.Args[0])
+		v := ex.eval(st, e.Args[1])
+		arr, off, ln := tField(data.T, "arr"), tField(data.T, "off"), tField(data.T, "len")
+		ex.safeN++
+		ex.oblige(st, "safe", fmt.Sprintf("safe.index.%d", ex.safeN), mk(">=", SBool, ln, intLit(n)), where+fmt.Sprintf(": binary.%s needs %d bytes", obj.Name(), n))
+		narr := arr
+		div := int64(1)
+		for i := int64(0); i < n; i++ {
+			b := mk("mod", SInt, mk("div", SInt, v.T, intLit(div)), intLit(256))
+			narr = tStore(narr, mk("+", SInt, off, intLit(i)), b)
+			div *= 256
+		}
+		// write back into the root local slice variable
+		root := e.Args[0]
+		for {
+			if se, ok := root.(*ast.SliceExpr); ok {
+				root = se.X
+				continue
+			}
+			if pe, ok := root.(*ast.ParenExpr); ok {
+				root = pe.X
+				continue
+			}
+			break
+		}
+		id, ok := root.(*ast.Ident)
+		if !ok {
+			panic(unsupported("binary.Put into something other than a local slice at " + where))
+		}
+		robj := ex.info.ObjectOf(id)
+		cur := ex.lookupVar(st, robj)
+		nv := tv(tMkDT(cur.T.S, ex.define("arr", narr), tField(cur.T, "off"), tField(cur.T, "len")), cur.GoT)
+		nv.FreshSlice = cur.FreshSlice
+		st.vars[robj] = nv
+		ex.notes = append(ex.notes, where+": binary.Put writes the local slice's backing array in place (slice assumed unaliased: A-GO)")
+		return tv(intLit(0), nil)
 	}
 	if strings.HasPrefix(full, "encoding/binary.") || obj.Pkg().Path() == "encoding/binary" {
 		// binary.LittleEndian.UintNN(slice)
@@ -769,6 +896,18 @@ func (ex *Exec) applyContract(st *State, cfi *FuncInfo, cfc *FuncContract, recv 
 	}
 	if cfc.Trusted {
 		ex.assumedCalls[cfi.Key] = true
+	}
+	if cfi == ex.fi {
+		// recursive call: the measure must be non-negative and strictly smaller than at entry
+		if cfc.Decreases != nil {
+			m1 := ex.w.trSpec(cfc.Decreases, env).T
+			eenv := ex.specEnv(ex.entry, nil)
+			m0 := ex.w.trSpec(cfc.Decreases, eenv).T
+			ex.oblige(st, "dec", fmt.Sprintf("dec.rec.call%d", cn), tAnd(mk("<=", SBool, intLit(0), m1), mk("<", SBool, m1, m0)), where+": recursive call decreases the measure "+cfc.Decreases.String())
+		} else {
+			o := ex.oblige(st, "dec", fmt.Sprintf("dec.rec.call%d", cn), tFalse, where+": recursive function has no decreases clause")
+			o.Static = "no decreases clause"
+		}
 	}
 	// iter protocol
 	if cfc.Iter != nil && closure != nil {
@@ -901,7 +1040,13 @@ func (ex *Exec) callbackCall(st *State, cb *Val, e *ast.CallExpr) *Val {
 		panic("iter protocol needs the index itself among args")
 	}
 	idx := args[idxPos]
-	env := ex.specEnv(st, map[string]*Val{ip.IdxVar: idx})
+	pextra := map[string]*Val{ip.IdxVar: idx}
+	for obj, v := range ex.entry.vars {
+		if _, isParam := obj.(*types.Var); isParam {
+			pextra[obj.Name()] = v // the protocol speaks about the parameters' entry values
+		}
+	}
+	env := ex.specEnv(st, pextra)
 	seen := st.ghost["seen"].T
 	stopped := st.ghost["stopped"].T
 	ex.oblige(st, "proto", fmt.Sprintf("proto.call%d.notstopped", cn), tNot(stopped), where+": no callback after the callback returned false")
@@ -927,7 +1072,24 @@ func (ex *Exec) callForwardIter(st *State, cn int, cfi *FuncInfo, cfc *FuncContr
 	seen := st.ghost["seen"].T
 	stopped := st.ghost["stopped"].T
 	ex.oblige(st, "proto", fmt.Sprintf("proto.call%d.notstopped", cn), tNot(stopped), where+": no search continues after the callback returned false")
-	ex.oblige(st, "proto", fmt.Sprintf("proto.call%d.domfresh", cn), ex.iterDomFresh(st, ip, env, seen), where+": callee's domain has not been reported yet")
+	{
+		pst := st.clone()
+		j := ex.fresh("sk_j", SInt)
+		jv := tv(j, types.Typ[types.Int])
+		hx := map[string]*Val{"$j": jv}
+		for obj, v := range ex.entry.vars {
+			if _, isParam := obj.(*types.Var); isParam {
+				hx[obj.Name()] = v
+			}
+		}
+		for k, u := range ex.fc.ProtoUses {
+			if tg := ex.fc.ProtoTargets[k]; tg == "" || tg == fmt.Sprintf("call%d", cn) {
+				ex.tryApplyLemma(pst, u, hx)
+			}
+		}
+		d := ex.w.trSpec(ip.Dom, env.with(map[string]*Val{ip.IdxVar: jv})).T
+		ex.oblige(pst, "proto", fmt.Sprintf("proto.call%d.domfresh", cn), tImp(d, tNot(tSelect(seen, j))), where+": callee's domain has not been reported yet")
+	}
 	seen1 := ex.fresh("seen", seen.S)
 	stopped1 := ex.fresh("stopped", SBool)
 	bvCounter++
